@@ -60,6 +60,7 @@ def run(tier):
         jobs.append((["total", "--mode", "chunks", "--max", str(max_chunks), "--shard", f"{i}/{n}"], "chunks"))
         jobs.append((["total", "--mode", "neighbours", "--files", lst, "--stride-char", str(sc), "--stride-tok", str(st), "--shard", f"{i}/{n}"], "neighbours"))
     jobs.append((["total", "--mode", "nest", "--depth", "64"], "nest"))
+    jobs.append((["total", "--mode", "literals"], "literals"))
     with Pool(n) as pool:
         res = pool.map(_run, jobs)
     tot = {"inputs": 0, "lex_ok": 0, "parse_ok": 0, "check_ok": 0, "emit_ok": 0, "fmt_ok": 0}
@@ -80,7 +81,7 @@ def run(tier):
         "distinct_nontrivial": len(outcomes),
         "rule": f"all strings of <= {max_chunks} chunks over a 32-chunk alphabet (raw fragments and whole tokens); for {len(files)} repository sources every "
         f"{sc}-th prefix / single-char deletion and each of the 32 chunks inserted at every {st}-th token boundary; nesting ladders (brackets, blocks, unary, calls, "
-        "types, f-strings, chains) to depth 64; distinct = distinct (stage statuses, normalised first diagnostic) outcome",
+        "types, f-strings, chains) to depth 64; 96 unusual literal / identifier / operator tokens in 26 expression, pattern, type and declaration positions; distinct = distinct (stage statuses, normalised first diagnostic) outcome",
         "samples": ["def f() -> int:(", "match x:\n    case \"s\"=>0", {"file": files[0], "edit": "delete char 17"}],
         "exhaustive": True,
         "inputs_by_mode": by_mode,
